@@ -26,8 +26,9 @@ type C18ToolSpec struct {
 }
 
 type C18ToolsCase struct {
-	Mode  Mode          `json:"mode"`
-	Tools []C18ToolSpec `json:"tools"`
+	Mode   Mode          `json:"mode"`
+	Tools  []C18ToolSpec `json:"tools"`
+	Filter bool          `json:"filter,omitempty"` // the server has a tool list filter (one that lets everything through)
 }
 
 var c18StructFields = [][]string{
@@ -49,7 +50,13 @@ func c18StyleOpts(style int) []mcp.SchemaOption {
 }
 
 func execC18Tools(c C18ToolsCase) *Failure {
-	w := NewWorld(c.Mode, RegSpec{}, WorldOpt{})
+	var wo WorldOpt
+	if c.Filter {
+		pass := func(ctx context.Context, tools []*mcp.Tool) []*mcp.Tool { return tools }
+		wo.ServerOpts = append(wo.ServerOpts, mcp.WithToolListFilter(pass))
+		wo.SSEOpts = append(wo.SSEOpts, mcp.WithSSEToolListFilter(pass))
+	}
+	w := NewWorld(c.Mode, RegSpec{}, wo)
 	defer w.Close()
 	reg := RegistrarOf(serverOf(w))
 	type built struct {
@@ -249,7 +256,7 @@ func jsonEqualText(a, b string) bool {
 func TestC18Tools(t *testing.T) {
 	RunProp(t, Prop[C18ToolsCase]{ID: "C18",
 		Gen: func(t *rapid.T) C18ToolsCase {
-			c := C18ToolsCase{Mode: Mode(rapid.SampledFrom([]int{0, 1, 2, 5, 6}).Draw(t, "mode"))}
+			c := C18ToolsCase{Mode: Mode(rapid.SampledFrom([]int{0, 1, 2, 5, 6}).Draw(t, "mode")), Filter: rapid.Bool().Draw(t, "filter")}
 			n := rapid.IntRange(1, 5).Draw(t, "ntools")
 			for i := 0; i < n; i++ {
 				ts := C18ToolSpec{Struct: rapid.SampledFrom([]int{0, 0, 1, 2}).Draw(t, "struct"), Style: rapid.SampledFrom([]int{0, 0, 1, 2, 3}).Draw(t, "style"), Output: rapid.IntRange(0, 2).Draw(t, "output") == 0}
